@@ -22,7 +22,7 @@ from .. import diagnose
 ID = "C05"
 RULE = ("cases = generated programs (profiles guarded/nested/multiassign/discrete/mixed/counter weighted towards guards whose "
         "variables are reassigned in the body, several assignments per variable, variables without initial value) x "
-        "type_fp_iterations in {1,2,3,100} x {default, transform_categoricals}; non-trivial = at least one *inferred* finite "
+        "type_fp_iterations in {0,1,2,3,100} x {default, transform_categoricals}; non-trivial = at least one *inferred* finite "
         "type of a variable that is assigned in the loop body was checked against >= 2 distinct observed values or states; "
         "distinct = (program text, settings) fingerprint")
 ASSUMPTIONS = [
